@@ -56,6 +56,13 @@ def cases(tier, seed, ctx=None):
         ops = [G.Construct] + [G.Feed(seg) for seg in rng.partition(stream)]
         meta = [1, r["method"], r["raw"], r["path"], [[k, v] for k, v in r["query"]], [[k, v] for k, v in r["sent"]], r["cl"]]
         yield ("sock", [G.NOPOL, ops, G.env_for(ver, tab, [r["raw"]]), meta], "sock-accessors")
+    # declared lengths at and beyond the 32-bit limits (no body is sent: only what the application is told counts)
+    for big in (2**31 - 1, 2**31, 2**31 + 1, 2**32 - 1, 2**32, 5 * 2**30, 2**53, 2**63 - 1):
+        for nm in (b"Content-Length", b"content-length"):
+            head = b"POST /up HTTP/1.1\r\nHost: h\r\n" + nm + b": %d" % big
+            v2, t2 = G.oracle(ctx, [b"/up"])
+            meta = [1, 8, b"/up", b"/up", [], [[b"Host", b"h"], [nm, b"%d" % big]], big]
+            yield ("sock", [G.NOPOL, [G.Construct, G.Feed(head + b"\r\n\r\n")], G.env_for(v2, t2, [b"/up"]), meta], "sock-big-length")
     for h in bad:
         if (h + b"\r\n\r\n").find(b"\r\n\r\n") != len(h):
             continue  # the head is what precedes the FIRST blank line
